@@ -108,7 +108,27 @@ def write_file(records, closing):
                 w.flush()
 
     try:
-        if closing == "with":
+        if closing.startswith("stdout"):
+            # the container goes to standard output (avro://-), closed with or without a preceding flush
+            import sys
+
+            from mc.rdumpshim import _Std
+
+            old = sys.stdout
+            sys.stdout = shim = _Std()
+            try:
+                if closing == "stdout-with":
+                    with RecordWriter("avro://-") as w:
+                        feed(w)
+                else:
+                    w = RecordWriter("avro://-")
+                    feed(w)
+                    w.close()
+            finally:
+                sys.stdout = old
+                with open(p, "wb") as f:
+                    f.write(shim.getvalue())
+        elif closing == "with":
             with RecordWriter(p) as w:
                 feed(w)
         else:
@@ -140,7 +160,7 @@ def run_case(case):
     outs = []
     label = case.get("label", case["kind"])
     n = 0
-    for closing in ("flushclose", "with", "flush-first", "flush-between"):
+    for closing in ("flushclose", "with", "flush-first", "flush-between", "stdout-close", "stdout-with"):
         n += 1
         p, res, cexc = write_file(records, closing)
         try:
